@@ -486,8 +486,8 @@ func parseConnectError(raw json.RawMessage) (*Error, error) {
 }
 
 type endStreamJSON struct {
-	Error    json.RawMessage     `json:"error"`
-	Metadata map[string][]string `json:"metadata"`
+	Error    json.RawMessage            `json:"error"`
+	Metadata map[string]json.RawMessage `json:"metadata"`
 }
 
 // DecodeResponse strictly decodes a recorded response. reqCT is the request's
@@ -546,7 +546,12 @@ func DecodeResponse(p Proto, streaming bool, reqCT string, status int, hdr http.
 					return nil, fmt.Errorf("end-of-stream payload is not JSON: %w", err)
 				}
 				r.Trailer = http.Header{}
-				for k, vs := range es.Metadata {
+				for k, raw := range es.Metadata {
+					// the protocol defines each value as an array of strings
+					var vs []string
+					if err := json.Unmarshal(raw, &vs); err != nil || vs == nil {
+						return nil, fmt.Errorf("end-of-stream metadata %q is %s, not an array of strings", k, raw)
+					}
 					ck := textproto.CanonicalMIMEHeaderKey(k)
 					r.Trailer[ck] = append(r.Trailer[ck], vs...)
 				}
